@@ -270,7 +270,7 @@ class Gen:
         in_text = False
         if is_form and not (self.wild and rng.random() < 0.3):
             out += self.prologue(res, st)
-        elif rng.random() < 0.8:
+        elif not self.wild or rng.random() < 0.8:
             a = self.args_for("Tf", res, st)
             out.append(["Tf", a])
             st["font"] = a[0][1]
@@ -314,7 +314,7 @@ class Gen:
                 well = a2 == args
                 args = a2
             elif self.wild and rng.random() < 0.06:
-                args = [rng.choice([num(7), ["/", "Q"], ["s", "41"], ["b", 1], ["s", "3132"]])] + args   # excess / odd
+                args = [rng.choice([num(7), ["/", "Q"], ["s", "41"], ["b", 1], ["s", "4a4b"]])] + args   # excess / odd
                 well = False
             out.append([op, args])
             # track what later generation depends on
@@ -850,7 +850,20 @@ def split_token_streams(case) -> List[str]:
     """The program as the token lists of its content streams (split where the byte streams are split)."""
     words: List[str] = enc_prog(case["prog"], case.get("trail", ())).split(" ") if (case["prog"] or case.get("trail")) else []
     # lexical tokens and protocol words correspond 1:1
-    cuts = [c for c in case.get("splits", []) if 0 < c < len(words)]
+    cuts = []
+    for c in case.get("splits", []):
+        if 0 < c < len(words):
+            # the byte streams may be cut inside an array (the parser's state survives a stream boundary);
+            # at token level the whole array then belongs to the later stream
+            opened = None
+            for j in range(c):
+                if words[j] == "[":
+                    opened = j
+                elif words[j] == "]":
+                    opened = None
+            c = opened if opened is not None else c
+            if c > 0 and c not in cuts:
+                cuts.append(c)
     out, prev = [], 0
     for c in cuts + [len(words)]:
         out.append(" ".join(words[prev:c]) or "-")
@@ -1153,7 +1166,7 @@ def run(ctx: C.Ctx) -> None:
         c.pop("name", None)
         check_case(ctx, c, True, batch, "directed")
     flush(ctx, batch)
-    n = ctx.n(260, 9000)
+    n = ctx.n(1500, 40000)
     for i in range(n):
         if not ctx.time_left():
             ctx.notes.append("time budget reached after %d generated cases" % i)
